@@ -91,6 +91,30 @@ def std_unwrap(o):
     return type(None) if o is None else o      # typing writes NoneType as None inside aliases and NewTypes
 
 
+def unwrap_stages(o):
+    """Every stage of peeling o, one wrapper at a time (Final/ClassVar argument, alias value -- a string body is
+    evaluated in the alias's module --, NewType supertype), o itself first."""
+    import sys
+    out = [o]
+    for _ in range(12):
+        if typing.get_origin(o) in (typing.Final, typing.ClassVar) and typing.get_args(o):
+            o = typing.get_args(o)[0]
+        elif isinstance(o, typing.TypeAliasType):
+            v = o.__value__
+            if isinstance(v, str):
+                try:
+                    v = eval(v, dict(vars(sys.modules[o.__module__])))
+                except Exception:
+                    break
+            o = v
+        elif hasattr(o, "__supertype__"):
+            o = o.__supertype__
+        else:
+            break
+        out.append(type(None) if o is None else o)
+    return out
+
+
 def full_unwrap(o):
     """std_unwrap that also follows string-valued aliases (body evaluated in the alias's own module, stdlib only)."""
     import sys
@@ -136,11 +160,12 @@ def observe(root, env, variants=()):
         for n in seq_:
             t, u = n.type, n.unwrapped
             den = denu = uden = "-"
+            dstages = []
             if n.cyclic or isinstance(t, typing.ForwardRef) or isinstance(u, typing.ForwardRef):
                 try:
                     tgt = t if not isinstance(t, typing.ForwardRef) else refs.evaluate(t)
-                    if isinstance(u, typing.ForwardRef) and not isinstance(t, typing.ForwardRef):
-                        tgt = refs.evaluate(u)
+                    if isinstance(u, typing.ForwardRef) and not isinstance(t, typing.ForwardRef) and not n.cyclic:
+                        tgt = refs.evaluate(u)          # a string alias's own (non-deferred) node: what its body denotes
                     den = note_members(std_unwrap(tgt)) if not n.cyclic else ids.id(tgt)
                     if n.cyclic:
                         note_members(tgt)
@@ -148,6 +173,7 @@ def observe(root, env, variants=()):
                         # `unwrapped` attribute evaluates to
                         denu = note_members(full_unwrap(tgt))
                         uden = ids.id(refs.evaluate(u) if isinstance(u, typing.ForwardRef) else u)
+                        dstages = [ids.id(x) for x in unwrap_stages(tgt)]
                 except Exception:
                     den = "unresolvable"
             if isinstance(t, typing.TypeAliasType) and isinstance(t.__value__, str) and ids.id(t) not in ev["salias"]:
@@ -156,7 +182,9 @@ def observe(root, env, variants=()):
             out.append({"t": ids.id(t), "u": note_members(u) if not isinstance(u, typing.ForwardRef) else ids.id(u),
                         "su": note_members(su) if not isinstance(su, (typing.ForwardRef, typing.TypeAliasType)) else ids.id(su),
                         "var": n.var or "", "cyc": bool(n.cyclic), "ref": isinstance(t, typing.ForwardRef),
-                        "uref": isinstance(u, typing.ForwardRef), "den": den, "denu": denu, "uden": uden})
+                        "uref": isinstance(u, typing.ForwardRef), "den": den, "denu": denu, "uden": uden, "dstages": dstages,
+                        # identity of the declared type as an object (None and NoneType are two objects naming one type)
+                        "tr": ids.id(t) + ("#None" if t is None else "")})
         return out
     ev["nodes"] = proj(seq)
     body = [(n["t"], n["u"], n["var"], n["cyc"]) for n in ev["nodes"][:-1]]
